@@ -135,10 +135,13 @@ def example_tasks():
 
 
 GEN_PRIVATE = ['r(X) :- q(X), X > 2.', 'r(X) :- q(X), not s(X).', 's(X) :- q(X), X != a.', 'r(X) :- e(X, Y), q(Y).', 's(X) :- e(X, X).',
-               'r(X) :- q(X), X = 1..3.', 's(X) :- q(X - 1).']
+               'r(X) :- q(X), X = 1..3.', 's(X) :- q(X - 1).',
+               # confusable names: a private predicate named like a renamed one, a 0-ary private predicate whose name is also a constant
+               'r_p(X) :- q(X), X < 5.', 'r :- q(X), X > 7.', 's(X) :- q(X), X != r.']
 GEN_PUBLIC = ['p(X) :- q(X), not r(X).', 'p(X) :- r(X).', '{p(X)} :- q(X).', 'p(X) :- q(X), X = 1..3.', 't(X) :- p(X), q(X + 1).', ':- p(X), t(X).',
               'p(X) :- q(X), s(X).', 't(X) :- q(X), not p(X).', 'p(X) :- e(X, Y), not s(Y).', 't(X) :- r(X), not s(X).', ':- q(X), not p(X), not t(X).',
-              'p(a) :- q(a).', 't(X) :- q(X), X < b.']
+              'p(a) :- q(a).', 't(X) :- q(X), X < b.',
+              'p(X) :- q(X), not r.', 't(X) :- r_p(X).', ':- r(X).', ':- s(X), q(X).', 'p(r) :- q(r).', 't(X) :- q(X), r < X, X < r0.']
 GEN_UG = 'input: q/1. input: e/2. output: p/1. output: t/1.'
 
 
@@ -450,7 +453,7 @@ def replay(r):
 
 def describe(tier):
     return {
-        'rule': '20 hand-written tasks (program vs program and specification vs program; private predicates on either side '
+        'rule': 'tasks generated from rule pools (with confusable names: a private predicate named like a renamed one, a 0-ary private predicate that is also a constant, single-atom constraints); 50 hand-written tasks (program vs program and specification vs program; private predicates on either side '
                 'and clashing on both, a program predicate literally named like a renamed private, integer/general/symbol '
                 'placeholders inside arithmetic and as plain terms, user-guide assumptions over inputs, choice rules and '
                 'constraints, outputs missing from one side, annotated directions) plus every task under '
